@@ -325,6 +325,21 @@ def _sources_equivalent(source1: str, source2: ast.AST) -> bool:
     return _asts_equal(core.parse(source1), core.parse(source2))
 
 
+def keep_syntax_tree(source: str, new_source: str) -> str:
+    """Return new_source if it has the same syntax tree as source, otherwise source.
+
+    Steps that only adjust the layout see the code as text, and must not be allowed to change what
+    is inside a string.
+    """
+    if new_source == source or not core.is_valid_python(source):
+        return new_source
+
+    if core.is_valid_python(new_source) and _sources_equivalent(source, new_source):
+        return new_source
+
+    return source
+
+
 def minimize_whitespace_line_differences(source: str, new_source: str) -> Tuple[str, str, str]:
     old_lines = source.splitlines(keepends=True)
     new_lines = new_source.splitlines(keepends=True)
